@@ -319,7 +319,7 @@ type VerifNode struct {
 	// handed over its state and before the snapshot file is created (only used by SnapRunCapture)
 	snapGate2  chan struct{}
 	snapParked chan struct{}
-	heldSnap *snapTaken
+	heldSnap   *snapTaken
 
 	// replication statuses ever created, to address updates from removed replications
 	statuses map[uint64][]*replicationStatus
